@@ -349,3 +349,21 @@ Proof.
         ++ cbn [feed]. rewrite U. reflexivity.
 Qed.
 End Sim.
+
+Lemma feed_read' : forall (l:list (N * list byte)) last out,
+  Sorted.StronglySorted N.lt (map fst l) -> Forall (fun x => (fst x < U64)%N) l ->
+  (match l with x :: _ => (last < fst x)%N \/ fst x = 0%N | [] => True end) ->
+  feed _ proc_read (last, out) l = PCont (match last_opt l with Some y => fst y | None => last end, rev l ++ out).
+Proof.
+  induction l as [|x t IH]; intros last out S F H; cbn [feed]; [reflexivity|].
+  inversion F as [|? ? Hx Ft]; subst. cbn [map] in S. inversion S as [|? ? St Hall]; subst.
+  replace (fst x <? U64)%N with true by (symmetry; apply N.ltb_lt; exact Hx).
+  unfold proc_read at 1.
+  replace ((last <? fst x) || (fst x =? 0))%N with true
+    by (symmetry; apply orb_true_iff; destruct H as [H|H]; [left; apply N.ltb_lt; exact H|right; apply N.eqb_eq; exact H]).
+  rewrite IH; try assumption.
+  - f_equal. destruct x as [tx px]. cbn [fst snd]. f_equal.
+    + destruct t as [|y t']; [reflexivity|]. cbn [last_opt]. rewrite Layout.last_cons. reflexivity.
+    + cbn [rev]. rewrite <- app_assoc. reflexivity.
+  - destruct t as [|y t']; [exact I|]. left. cbn [map] in Hall. inversion Hall; subst. assumption.
+Qed.
